@@ -427,8 +427,9 @@ def run_layout(case, elems, sigs, recs):
         if not representable_all(elems, set(ids) | {1}, sig):
             continue
         n = len(sig) + 1
-        for flavor in ("generic", "momentum"):
+        for flavor, ctor in (("generic", "Array"), ("momentum", "Array"), ("generic", "with_name"), ("momentum", "with_name")):
             names = names_of(sig, flavor)
+            with_hits = ctor == "with_name"
 
             def conv(x):
                 if isinstance(x, list):
@@ -440,20 +441,30 @@ def run_layout(case, elems, sigs, recs):
                 d = dict(zip(names, stored_row(elems, x, sig)))
                 d["charge"] = x
                 d["label"] = 100.5 + x
+                if with_hits:
+                    d["hits"] = list(range(x % 3))       # a list-valued extra field: deeper than the coordinates
                 return d
 
             data = conv(lay)
             sample = dict(zip(names, stored_row(elems, 1, sig)))
             sample.update(charge=1, label=101.5)
+            if with_hits:
+                sample["hits"] = [7]
             probe = sample
             for _ in range(case["depth"] - 1):
                 probe = [probe]
             raw = ak.Array(data + [probe])[: len(data)]
             if case["regular"] == "T":
                 raw = ak.to_regular(raw, axis=1)
-            arr = vector.Array(raw)
+            if ctor == "Array":
+                arr = vector.Array(raw)
+            else:
+                # records named by ak.with_name and the vector behavior attached by hand (what vector.zip /
+                # register_awkward users do): the only way to carry list-valued extra fields
+                recname = ("Momentum" if flavor == "momentum" else "Vector") + f"{n}D"
+                arr = ak.Array(ak.with_name(raw, recname), behavior=vector.backends.awkward.behavior)
             single = vector.obj(**dict(zip(coords.field_names(coords.CANON[n]), [0.5, -1.5, 2.5, 9.5][:n])))
-            base0 = {"sig": [sig, None], "tag": "layout", "flavor": flavor, "case": case}
+            base0 = {"sig": [sig, None], "tag": "layout", "flavor": flavor, "ctor": ctor, "case": case}
             in_struct = structure(ak.to_list(arr), lambda d: d["charge"])
             if in_struct != want_struct:
                 recs.append(dict(base0, op="construct", kind="constructor-changed-structure", got=repr(in_struct)[:150], want=repr(want_struct)[:150]))
@@ -480,11 +491,11 @@ def run_layout(case, elems, sigs, recs):
                 if s_out != s_in:
                     recs.append(dict(base, kind="structure-changed", got=repr(s_out)[:150], want=repr(s_in)[:150]))
                     return
-                if str(ak.type(out)).count("var") != str(ak.type(arr)).count("var") or ("?" in str(ak.type(arr))) != ("?" in str(ak.type(out))) and ids:
-                    recs.append(dict(base, kind="type-structure-changed", got=str(ak.type(out))[:150], want=str(ak.type(arr))[:150]))
+                if out.layout.purelist_depth != arr.layout.purelist_depth:
+                    recs.append(dict(base, kind="nesting-depth-changed", got=str(ak.type(out))[:150], want=str(ak.type(arr))[:150]))
                 fields = set(ak.fields(out))
                 extra = fields - set(rnames) - set(MOM[g] for g in rnames)
-                if carries and extra != {"charge", "label"}:
+                if carries and extra != ({"charge", "label", "hits"} if with_hits else {"charge", "label"}):
                     recs.append(dict(base, kind="extra-fields-not-carried", got=sorted(fields)))
                 if not carries and extra:
                     recs.append(dict(base, kind="extra-fields-in-binary-result", got=sorted(fields)))
@@ -504,8 +515,9 @@ def run_layout(case, elems, sigs, recs):
                     sc = 1 + max(abs(x) for x in rc)
                     if not close_vec(gc, rc, mpf(10) ** -12 * sc):
                         recs.append(dict(base, kind="element-differs-from-object-backend", got=[mpmath.nstr(x, 17) for x in gc], want=[mpmath.nstr(x, 17) for x in rc]))
-                    if carries and (a.get("charge") != b["charge"] or a.get("label") != b["label"]):
-                        recs.append(dict(base, kind="extra-field-value-changed", got=[a.get("charge"), a.get("label")], want=[b["charge"], b["label"]]))
+                    if carries and (a.get("charge") != b["charge"] or a.get("label") != b["label"] or a.get("hits") != b.get("hits")):
+                        recs.append(dict(base, kind="extra-field-value-changed", got=[a.get("charge"), a.get("label"), a.get("hits")],
+                                         want=[b["charge"], b["label"], b.get("hits")]))
 
                 walk(lst, in_list)
 
